@@ -4,7 +4,7 @@
    Spec: theories/Isa/Spec.v. *)
 From Coq Require Import ZArith List.
 From Maj Require Import Base.Outcome Base.GoInt Base.GoTypes.
-From Maj Require Import Gen.Opcodes Isa.Spec Isa.Refine.
+From Maj Require Import Gen.Opcodes Isa.Spec Isa.Embed Isa.Refine.
 Import ListNotations.
 Open Scope Z_scope.
 
